@@ -12,6 +12,7 @@ bootstrap.ensure()
 
 ID = "C13"
 LEVEL = "exploration"
+TECHNIQUE = "runtime monitoring: grid-exhaustive evaluation of folding, flattening and required-column declarations (all sub-expressions)"
 RULE = (
     "seeded random predicates and scalar expressions (all node types of the portable set, AND/OR of arity 0-3 via "
     "factory and constructor, literals True/False at every depth, empty sequences and ranges), depth <= 3/4, over "
